@@ -245,50 +245,50 @@ func cmdDump(args []string) {
 }
 
 type workerStats struct {
-	Type        string         `json:"type"`
-	Cold        bool           `json:"cold"`
-	Worker      int            `json:"worker"`
-	Seed        uint64         `json:"seed"`
-	Prop        string         `json:"prop"`
-	Runs        int64          `json:"runs"`
-	Ops         int64          `json:"ops"`
-	NonTrivial  int64          `json:"nontrivial"`
-	Wall        float64        `json:"wall_s"`
-	Sim         rt.Stats       `json:"sim"`
-	Probes      probeCounts    `json:"probes"`
-	Policies    map[string]int64 `json:"policies"`
-	TaskHist    map[int]int64  `json:"tasks_hist"`
-	Aborts      map[string]int64 `json:"aborts"`
-	O1Compared  int64          `json:"o1_compared"`
-	O1Calm      int64          `json:"o1_calm"`
-	O1Distinct  int64          `json:"o1_distinct_keys"`
-	O1Resets    int            `json:"o1_resets"`
-	EqCompared  int64          `json:"eq_compared"`
-	RefCompared int64          `json:"ref_compared"`
-	EqStates    int            `json:"eq_states"`
-	PointsHit   []int          `json:"points_hit,omitempty"`     // ids of points executed under the scheduler
-	PreemptSites []int         `json:"preempt_sites,omitempty"`  // ids of points at which a preemption fired
-	SetPairs    int            `json:"set_pairs"`
-	SetPairsTotal int          `json:"set_pairs_total"` // size of the (metric set, value, neighbour metric, neighbour value) space per the specification tables
-	RunHash     string         `json:"run_hash"` // hash over all run hashes: determinism self-test
-	Samples     []*Plan        `json:"samples,omitempty"`
-	Violations  int            `json:"violations"`
-	DetViolations int          `json:"det_violations"` // runs with a violation from a deterministic oracle (not only the race monitor)
-	RaceErrors  int            `json:"race_errors"`
-	DistinctFile string        `json:"distinct_file,omitempty"`
-	SigFile     string         `json:"sig_file,omitempty"`
-	PairsFile   string         `json:"pairs_file,omitempty"`
+	Type          string           `json:"type"`
+	Cold          bool             `json:"cold"`
+	Worker        int              `json:"worker"`
+	Seed          uint64           `json:"seed"`
+	Prop          string           `json:"prop"`
+	Runs          int64            `json:"runs"`
+	Ops           int64            `json:"ops"`
+	NonTrivial    int64            `json:"nontrivial"`
+	Wall          float64          `json:"wall_s"`
+	Sim           rt.Stats         `json:"sim"`
+	Probes        probeCounts      `json:"probes"`
+	Policies      map[string]int64 `json:"policies"`
+	TaskHist      map[int]int64    `json:"tasks_hist"`
+	Aborts        map[string]int64 `json:"aborts"`
+	O1Compared    int64            `json:"o1_compared"`
+	O1Calm        int64            `json:"o1_calm"`
+	O1Distinct    int64            `json:"o1_distinct_keys"`
+	O1Resets      int              `json:"o1_resets"`
+	EqCompared    int64            `json:"eq_compared"`
+	RefCompared   int64            `json:"ref_compared"`
+	EqStates      int              `json:"eq_states"`
+	PointsHit     []int            `json:"points_hit,omitempty"`    // ids of points executed under the scheduler
+	PreemptSites  []int            `json:"preempt_sites,omitempty"` // ids of points at which a preemption fired
+	SetPairs      int              `json:"set_pairs"`
+	SetPairsTotal int              `json:"set_pairs_total"` // size of the (metric set, value, neighbour metric, neighbour value) space per the specification tables
+	RunHash       string           `json:"run_hash"`        // hash over all run hashes: determinism self-test
+	Samples       []*Plan          `json:"samples,omitempty"`
+	Violations    int              `json:"violations"`
+	DetViolations int              `json:"det_violations"` // runs with a violation from a deterministic oracle (not only the race monitor)
+	RaceErrors    int              `json:"race_errors"`
+	DistinctFile  string           `json:"distinct_file,omitempty"`
+	SigFile       string           `json:"sig_file,omitempty"`
+	PairsFile     string           `json:"pairs_file,omitempty"`
 }
 
 type violationMsg struct {
-	Type   string    `json:"type"`
-	Worker int       `json:"worker"`
-	Run    int       `json:"run"`
-	Seed   uint64    `json:"seed"`
-	BaseSeed uint64  `json:"base_seed"`
-	Cold   bool      `json:"cold"`
-	V      Violation `json:"violation"`
-	File   planFile  `json:"file"`
+	Type     string    `json:"type"`
+	Worker   int       `json:"worker"`
+	Run      int       `json:"run"`
+	Seed     uint64    `json:"seed"`
+	BaseSeed uint64    `json:"base_seed"`
+	Cold     bool      `json:"cold"`
+	V        Violation `json:"violation"`
+	File     planFile  `json:"file"`
 }
 
 func cmdRun(args []string) {
@@ -554,10 +554,10 @@ func cmdExec(args []string) {
 // ------------------------------------------------------------------ minimiser
 
 type minimiser struct {
-	class   string
-	prop    string
-	tmp     string
-	tests   int
+	class    string
+	prop     string
+	tmp      string
+	tests    int
 	deadline time.Time
 }
 
